@@ -510,6 +510,17 @@ func observe(g geom.Geometry, others []Operand) (map[string]string, string) {
 		_, werr := geom.UnmarshalWKT(g.AsText())
 		_, berr := geom.UnmarshalWKB(g.AsBinary())
 		obs["WKT/WKB encode and decode"] = fmt.Sprint(werr, berr)
+		// a point on the surface exists exactly when the geometry is not empty and lies on it
+		pos := g.PointOnSurface()
+		obs["PointOnSurface is empty / lies on g"] = fmt.Sprint(pos.IsEmpty(), geom.Intersects(pos.AsGeometry(), g))
+		// every unary operation of the read API is total on it (its answer may legitimately mention the empty member)
+		for _, u := range C10Unary {
+			if p := engine.SafeCall(func() { u.Fn(g) }); p != nil {
+				obs["total: "+u.Name] = fmt.Sprint("panic: ", p)
+			} else {
+				obs["total: "+u.Name] = "no panic"
+			}
+		}
 		x := oracle.FromGeom(g)
 		for i, o := range others {
 			k := fmt.Sprint("#", i, " ", o.WKT, " ")
